@@ -9,7 +9,7 @@ GEN = ['gen_grow.json']
 ELEMS = ['pod', 'ntm', 'cpy', 'smh', 'str']
 # container configs: (name, ic / logInitialItemCount)
 def configs(elem):
-    c = [('arr', 0), ('vec', 0), ('segc', 0), ('segc', 2), ('segc', 5), ('segs', 0), ('segs', 1), ('segs', 3)]
+    c = [('arr', 0), ('arrG', 0), ('vec', 0), ('segc', 0), ('segc', 2), ('segc', 5), ('segs', 0), ('segs', 1), ('segs', 3)]
     if elem != 'cpy':        # ArrayIntCap needs nothrow-relocatable items
         c += [('arr', 1), ('arr', 4), ('arr', 16), ('vec', 4)]
     if elem == 'pod':        # memory manager with Reallocate
@@ -38,7 +38,7 @@ def setup(n, state, fresh, cont):
     return ops
 
 
-def tested_ops(n, fresh, cont, full):
+def tested_ops(n, fresh, cont, full, elem):
     """every operation with the value argument aliasing every index, empty ranges, all positions"""
     out = []
     idx = range(n)
@@ -47,13 +47,24 @@ def tested_ops(n, fresh, cont, full):
     for i in idx:
         out.append(['ab:r:%d' % i])
         out.append(['abm:r:%d' % i, 'set:%d:%d' % (i, fresh())])
-    out.append(['ab:v:%d' % fresh()]); out.append(['abm:v:%d' % fresh()])
+    out.append(['ab:v:%d' % fresh()]); out.append(['abm:v:%d' % fresh()]); out.append(['emb:v:%d' % fresh()])
+    for i in idx:
+        out.append(['emb:r:%d' % i])                       # AddBackVar(a[i]) / emplace_back(v[i])
+    out += [['cpc'], ['cpa'], ['mvc'], ['swp:%d:%d' % (fresh(), fresh())]]
+    if elem != 'str':
+        for m in sorted(set([0, max(0, n - 1), n, n + 1, 2 * n + 9])):
+            out.append(['sc0:%d' % m])
     for j in pos:
         for c in counts:
             out.append(['ins:%d:%d:v:%d' % (j, c, fresh())])
             for i in idx:
                 out.append(['ins:%d:%d:r:%d' % (j, c, i)])
         out.append(['ins1:%d:v:%d' % (j, fresh())]); out.append(['insm:%d:v:%d' % (j, fresh())])
+        out.append(['emi:%d:v:%d' % (j, fresh())])
+        if j < n:
+            out.append(['rm1:%d' % j])
+        for i in idx:
+            out.append(['emi:%d:r:%d' % (j, i)])          # InsertVar(j, a[i]) / emplace(pos, v[i])
         for i in idx:
             out.append(['ins1:%d:r:%d' % (j, i)])
             out.append(['insm:%d:r:%d' % (j, i), 'set:%d:%d' % (i + 1 if i >= j else i, fresh())])
@@ -63,6 +74,8 @@ def tested_ops(n, fresh, cont, full):
     for j in sorted(set([0, n // 2, n])):
         for ln in counts:
             out.append(['insi:%d:%s' % (j, ','.join(str(fresh()) for _ in range(ln)))])
+            if ln <= 3:
+                out.append(['insl:%d:%s' % (j, ','.join(str(fresh()) for _ in range(ln)))])
     for c in sorted(set([0, 1, n])):
         if c <= n:
             out.append(['rb:%d' % c])
@@ -84,23 +97,32 @@ def tested_ops(n, fresh, cont, full):
             out.append(['sc:%d:r:%d' % (m, i)])
             if cont == 'vec':
                 out.append(['asg:%d:r:%d' % (m, i)])
-    out.append(['rs:%d' % (n + 1)]); out.append(['sh:-'])
+    for m in sorted(set([0, n, n + 1, 2 * n + 9])):
+        out.append(['rs:%d' % m])
+    out.append(['sh:-'])
     if cont != 'vec':
         out.append(['sh:%d' % (n + 2)]); out.append(['sh:0'])
     return out
 
 
-def random_script(r, cont, length, fresh):
-    ops = []; n = 0; moved = None
+def random_script(r, cont, length, fresh, elem='pod'):
+    ops = []; n = 0; moved = 0      # moved = number of moved-from elements possibly still present
     for _ in range(length):
-        t = r.below(19)
+        t = r.below(24)
+        if moved and t in (11,):
+            t = 0                   # the filter is not applied to moved-from elements
+        if moved and r.chance(1, 4):
+            # refill everything that may be moved-from by a resize to a known state
+            ops.append('clr:0'); n = 0; moved = 0
         ref = n > 0 and r.chance(2, 3)
         arg = lambda: ('r:%d' % r.below(n)) if ref else ('v:%d' % fresh())
         if t <= 2:
             ops.append('ab:' + arg()); n += 1
         elif t == 3:
             if ref:
-                i = r.below(n); ops += ['abm:r:%d' % i, 'set:%d:%d' % (i, fresh())]
+                i = r.below(n); ops += ['abm:r:%d' % i]
+                if r.chance(2, 3): ops += ['set:%d:%d' % (i, fresh())]
+                else: moved += 1
             else:
                 ops.append('abm:v:%d' % fresh())
             n += 1
@@ -111,7 +133,9 @@ def random_script(r, cont, length, fresh):
         elif t == 7:
             j = r.below(n + 1)
             if ref:
-                i = r.below(n); ops += ['insm:%d:r:%d' % (j, i), 'set:%d:%d' % (i + 1 if i >= j else i, fresh())]
+                i = r.below(n); ops += ['insm:%d:r:%d' % (j, i)]
+                if r.chance(2, 3): ops += ['set:%d:%d' % (i + 1 if i >= j else i, fresh())]
+                else: moved += 1
             else:
                 ops.append('insm:%d:v:%d' % (j, fresh()))
             n += 1
@@ -137,9 +161,25 @@ def random_script(r, cont, length, fresh):
             j = r.below(n + 1); ln = r.choice([0, 1, 2, 3]); ops.append('insi:%d:%s' % (j, ','.join(str(fresh()) for _ in range(ln)))); n += ln
         elif t == 17:
             c = r.below(min(n, 3) + 1); ops.append('rb:%d' % c); n -= c
+        elif t == 19:
+            ops.append('emb:' + arg()); n += 1
+        elif t == 20:
+            j = r.below(n + 1); ops.append('emi:%d:%s' % (j, arg())); n += 1
+        elif t == 21:
+            j = r.below(n + 1); ln = r.below(4); ops.append('insl:%d:%s' % (j, ','.join(str(fresh()) for _ in range(ln)))); n += ln
+        elif t == 22:
+            if moved == 0: ops.append(r.choice(['cpc', 'cpa', 'mvc', 'swp:%d:%d' % (fresh(), fresh())]))
+            else: ops.append('mvc')
+        elif t == 23:
+            if n > 0 and r.chance(1, 2):
+                ops.append('rm1:%d' % r.below(n)); n -= 1
+            elif elem != 'str':
+                m = r.below(n + 5); ops.append('sc0:%d' % m); n = m
+            else:
+                ops.append('rs:%d' % r.below(3 * n + 4))
         else:
             if r.chance(1, 3):
-                ops.append('clr:%d' % (0 if cont == 'vec' else r.below(2))); n = 0
+                ops.append('clr:%d' % (0 if cont == 'vec' else r.below(2))); n = 0; moved = 0
             elif cont == 'vec':
                 ln = r.below(6); ops.append('asgr:%s' % ','.join(str(fresh()) for _ in range(ln))); n = ln
             else:
@@ -156,7 +196,7 @@ def gen_cases(ctx, elem, traits, scale):
     for (cont, ic) in configs(elem):
         head = '%s %s %d %d %d ' % (cont, elem, ic, nm, nr)
         fresh = Fresh(10)
-        primary = cont in ('arr', 'arrR', 'vec')
+        primary = cont in ('arr', 'arrR', 'arrG', 'vec')
         ns = [0, 1, 2, 3, 5] if primary else [0, 2, 5]
         if scale > 1:
             ns = [0, 1, 2, 3, 4, 5, 8] if primary else [0, 1, 2, 5, 9]
@@ -164,11 +204,108 @@ def gen_cases(ctx, elem, traits, scale):
             states = ['grown', 'full', 'onefree', 'roomy'] if primary else ['grown']
             for st in states:
                 pre = setup(n, st, fresh, cont)
-                for t in tested_ops(n, fresh, cont, full=(n <= 3 or scale > 1)):
+                for t in tested_ops(n, fresh, cont, full=(n <= 3 or scale > 1), elem=elem):
                     cases.append(head + ' '.join(pre + t))
         for _ in range((60 if primary else 25) * scale):
-            cases.append(head + ' '.join(random_script(r, cont, 30, Fresh(100))))
+            cases.append(head + ' '.join(random_script(r, cont, 30, Fresh(100), elem)))
+        for _ in range((3 if primary else 2) * scale):
+            cases.append(head + ' '.join(long_script(r, cont, Fresh(1000), elem)))
     return cases
+
+
+def long_script(r, cont, fresh, elem):
+    """a history that crosses every growth band of GrowCapacity (<=2 -> 4, doubling up to 64, +64 below 150, +23/50 above) and,
+    for SegmentedArray, several segment boundaries - twice (grow, shrink/clear, grow again), with aliased arguments at the big sizes"""
+    ops = []; n = 0
+    def grow_to(target):
+        nonlocal n
+        while n < target:
+            t = r.below(6)
+            if t == 0 or n == 0:
+                ops.append('ab:%s' % ('r:%d' % r.below(n) if n and r.chance(1, 2) else 'v:%d' % fresh())); n += 1
+            elif t == 1:
+                c = min(target - n, r.choice([1, 2, 7, 30])); j = r.below(n + 1)
+                ops.append('ins:%d:%d:r:%d' % (j, c, r.below(n))); n += c
+            elif t == 2:
+                m = min(target, n + r.choice([1, 3, 20, 64])); ops.append('sc:%d:r:%d' % (m, r.below(n))); n = m
+            elif t == 3:
+                ln = min(target - n, r.choice([1, 2, 5])); j = r.below(n + 1)
+                ops.append('%s:%d:%s' % (r.choice(['insr', 'insi']), j, ','.join(str(fresh()) for _ in range(ln)))); n += ln
+            elif t == 4:
+                i = r.below(n); j = r.below(n + 1)
+                ops.extend(['insm:%d:r:%d' % (j, i), 'set:%d:%d' % (i + 1 if i >= j else i, fresh())]); n += 1
+            else:
+                ops.append('emb:r:%d' % r.below(n)); n += 1
+    def probe():
+        nonlocal n
+        i = r.below(n); j = r.below(n + 1)
+        ops.append('ins:%d:0:r:%d' % (j, i)); ops.append('rm:%d:0' % j)
+        ops.append('ins:%d:2:r:%d' % (r.choice([0, n // 2, n]), r.choice([0, n // 2, n - 1]))); n += 2
+        c = min(n, r.choice([1, 5, 33])); j = r.below(n - c + 1); ops.append('rm:%d:%d' % (j, c)); n -= c
+    for target in (5, 40, 70, 160, 330):
+        grow_to(target); probe()
+    ops.append('rmf:%d' % r.choice([2, 3])); m = 200 + r.below(20); ops.append('sc:%d:v:%d' % (m, fresh() * 6 + 1)); n = m
+    ops.append('sh:-'); ops.append('ab:r:%d' % r.below(n)); n += 1
+    ops.append('rb:%d' % (n - 20)); n = 20
+    ops.append('sh:%s' % ('-' if cont == 'vec' else '10'))          # SegmentedArray: a request below the count is clamped to the count
+    ops.append('cpc'); ops.append('mvc')
+    ops.append('clr:%d' % (0 if cont == 'vec' else 1)); n = 0
+    for target in (70, 160):
+        grow_to(target); probe()
+    return ops
+
+
+M = 2 ** 64 - 1
+
+def rej_cases(ctx, traits, scale):
+    """calls that must be rejected (MOMO_CHECK / MOMO_ASSERT = assert, or an exception) WITHOUT touching the array:
+    boundary values 0, n-1, n, n+1, SIZE_MAX-k, SIZE_MAX for every numeric argument; run in a forked child by the harness"""
+    out = {e: [] for e in ELEMS}
+    for e in (ELEMS if scale > 1 else ['pod', 'str', 'cpy']):
+        nm, nr = traits[e]
+        conts = [('rej-arr', 0), ('rej-segc', 2), ('rej-vec', 0)] + ([('rej-arr', 4)] if e != 'cpy' else [])
+        for (cont, ic) in conts:
+            for n in (0, 4, 5, 9):       # 4 = full (capacity 4), 5 and 9 = free capacity left
+                pre = ' '.join('ab:v:%d' % (10 + k) for k in range(n))
+                bad = []
+                if cont != 'rej-vec':    # (stdish erase/pop_back take iterators / no count)
+                    for j in sorted(set([0, max(0, n - 1), n, n + 1, M - 1, M])):
+                        for c in sorted(set([1, n - j + 1 if j <= n else 1, M - j if j <= M else 1, M - j + 1 if 0 < j else M, M - 1, M])):
+                            if 0 <= c <= M and not (j <= n and c <= n - j):
+                                bad.append('rm:%d:%d' % (j, c))
+                    bad += ['rm:%d:0' % (n + 1), 'rm:%d:0' % M, 'rb:%d' % (n + 1), 'rb:%d' % M, 'rm1:%d' % n, 'rm1:%d' % M,
+                            'set:%d:5' % n, 'set:%d:5' % M]
+                for j in ((n + 1, M) if cont != 'rej-vec' else ()):   # (a std iterator beyond end() is UB on the caller's side)
+                    bad += ['ins:%d:1:v:5' % j, 'ins:%d:0:v:5' % j, 'ins1:%d:v:5' % j, 'insm:%d:v:5' % j, 'emi:%d:v:5' % j,
+                            'insr:%d:1,2' % j, 'insi:%d:1,2' % j, 'insl:%d:1,2' % j]
+                for j in sorted(set([0, n // 2, n])):
+                    for c in (M, M - 1, M - n, M - n + 1, M - n - 1, 2 ** 63):
+                        if c > 0 and not (cont == 'rej-segc' and n + c <= M):   # (no wrap on a SegmentedArray = a real huge Reserve)
+                            bad.append('ins:%d:%d:v:5' % (j, c))
+                            if n: bad.append('ins:%d:%d:r:%d' % (j, c, n - 1))
+                if cont not in ('rej-segc',):
+                    bad += ['sc:%d:v:5' % M, 'sc:%d:v:5' % (2 ** 63), 'rs:%d' % M, 'rs:%d' % (2 ** 62)]
+                    if e != 'str': bad.append('sc0:%d' % M)
+                for b in bad:
+                    out[e].append('%s %s %d %d %d %s | %s' % (cont, e, ic, nm, nr, pre, b))
+    return out
+
+
+# failing inputs of a genuine defect found by the audit (see NOTES.md); key for known_findings.txt
+KNOWN_KEY_INSERT_OVERFLOW = 'insert-count-overflow-touches-array'
+
+def rej_oracle(case, out):
+    w = out.split()
+    if len(w) < 4 or w[0] != 'pre':
+        return 'harness failed on a call that must be rejected: ' + out[:80], None
+    pre, how, post = w[1], w[2], w[3]
+    bad = case.split('|')[1].strip()
+    key = KNOWN_KEY_INSERT_OVERFLOW if bad.startswith('ins:') and int(bad.split(':')[2]) > 2 ** 62 else None
+    if how == 'accepted':
+        return 'a call violating its precondition was accepted (%s): %s -> %s' % (bad, pre, post), key
+    if post != pre:
+        return 'the array was modified before the call was rejected (%s, %s): %s -> %s' % (bad, how, pre, post), key
+    return None, None
 
 
 def grow_cases(ctx, scale):
@@ -216,7 +353,7 @@ def oracle_line(ctx, case, out):
             o = op.split(':')[0]
             if o == 'rs':
                 reserved = (int(op.split(':')[1]), int(al))
-            elif o in ('sh', 'asg', 'asgr', 'clr'):
+            elif o in ('sh', 'asg', 'asgr', 'clr', 'cpc', 'cpa', 'mvc', 'swp'):
                 reserved = None
             elif reserved is not None:
                 if cnt > reserved[0]:
@@ -226,9 +363,55 @@ def oracle_line(ctx, case, out):
     return None
 
 
+def measure(cases, impl_out, gcases, rcases, rej_stats):
+    """what actually occurred in this run (measured on the case lines and on the real code's outputs)"""
+    d = {'scripts_per_element_kind': {e: len(cases[e]) for e in cases}, 'growcapacity_cases': len(gcases),
+         'rejected_call_cases': {e: len(rcases[e]) for e in rcases if rcases[e]}, 'rejected_call_outcomes': rej_stats}
+    conf = {}; opk = {}; alias = {'lvalue_alias': 0, 'rvalue_alias': 0, 'empty_range_or_count0': 0, 'index_eq_count': 0}
+    ev = {'steps': 0, 'allocation_events': 0, 'steps_with_moved_from_element': 0, 'scripts_reaching_capacity>64': 0,
+          'scripts_reaching_capacity>=150': 0, 'scripts_reaching_count>=300': 0, 'seg_scripts_crossing_a_segment_boundary': 0,
+          'steps_count==capacity(full)': 0, 'steps_count<=internal_capacity(intcap)': 0, 'growth_events_per_script_max': 0}
+    seg_items = {('segc', 0): 1, ('segc', 2): 4, ('segc', 5): 32, ('segs', 0): 1, ('segs', 1): 2, ('segs', 3): 8}
+    for e in cases:
+        outs = impl_out.get(e, [])
+        for idx, c in enumerate(cases[e]):
+            w = c.split(); k = '%s<%s>' % (w[0], w[2]); conf[k] = conf.get(k, 0) + 1
+            for tok in w[5:]:
+                p = tok.split(':'); o = p[0]; opk[o] = opk.get(o, 0) + 1
+                if ':r:' in tok:
+                    alias['rvalue_alias' if o in ('abm', 'insm') else 'lvalue_alias'] += 1
+                if (o in ('ins',) and p[2] == '0') or (o == 'rm' and p[2] == '0') or (o in ('insr', 'insi', 'insl') and p[2] == '') or o == 'rb' and p[1] == '0':
+                    alias['empty_range_or_count0'] += 1
+            if idx < len(outs):
+                steps = STEP.findall(outs[idx]); last_a = 0; maxcap = 0; maxcnt = 0; grows = 0
+                for tok, (seq, cap, al) in zip(w[5:], steps):
+                    ev['steps'] += 1
+                    cnt = len(seq.split(',')) if seq else 0; maxcnt = max(maxcnt, cnt)
+                    if 'M' in seq: ev['steps_with_moved_from_element'] += 1
+                    if cap != '-':
+                        maxcap = max(maxcap, int(cap))
+                        if int(cap) == cnt: ev['steps_count==capacity(full)'] += 1
+                        if w[0] in ('arr', 'arrR', 'vec') and int(w[2]) > 0 and cnt <= int(w[2]): ev['steps_count<=internal_capacity(intcap)'] += 1
+                    if al != '-':
+                        if int(al) > last_a: ev['allocation_events'] += int(al) - last_a; grows += int(al) - last_a
+                        last_a = int(al)
+                    p = tok.split(':')
+                    if p[0] in ('ins', 'ins1', 'insm', 'emi', 'insr', 'insi', 'insl', 'rm') and p[1].isdigit() and int(p[1]) == cnt:
+                        alias['index_eq_count'] += 1
+                if maxcap > 64: ev['scripts_reaching_capacity>64'] += 1
+                if maxcap >= 150: ev['scripts_reaching_capacity>=150'] += 1
+                if maxcnt >= 300: ev['scripts_reaching_count>=300'] += 1
+                ev['growth_events_per_script_max'] = max(ev['growth_events_per_script_max'], grows)
+                if (w[0], int(w[2])) in seg_items and maxcnt > 2 * seg_items[(w[0], int(w[2]))]:
+                    ev['seg_scripts_crossing_a_segment_boundary'] += 1
+    d['scripts_per_container_config'] = conf; d['ops_by_kind'] = opk; d['argument_categories'] = alias; d['events_measured_on_real_outputs'] = ev
+    return d
+
+
 def build_harnesses(ctx):
-    jobs = [('harness.cpp', 'harness_' + e, ['-DELEM=%d' % i]) for i, e in enumerate(ELEMS)]
-    res = ctx.cxx_many(jobs)
+    fast = ['-O0', '-g0'] if ctx.quick() else ['-O0', '-g1']   # (compile time: ~16 container types x 40 ops per element kind; -O1 + sanitizers costs 5x)
+    jobs = [('harness.cpp', 'harness_' + e, ['-DELEM=%d' % i] + fast) for i, e in enumerate(ELEMS)]
+    res = ctx.cxx_many(jobs, timeout=2400)
     if any(v is None for v in res.values()):
         ctx.stage('build-harness', False, getattr(ctx, 'last_cxx_error', ''))
         return None
@@ -260,7 +443,7 @@ def replay(ctx, rp):
     rc, lines, err = ctx.run_lines([hs[elem]], path)
     out = lines[0] if lines else ''
     print('case:', case, '\nimplementation:', out if lines else err[-500:])
-    why = oracle_line(ctx, case, out) if rc == 0 and lines else 'harness crashed'
+    why = (rej_oracle(case, out)[0] if w[0].startswith('rej-') else oracle_line(ctx, case, out)) if rc == 0 and lines else 'harness crashed'
     if rp.get('model') and out != rp.get('model'):
         why = why or 'implementation differs from the recorded model output ' + rp['model']
     if why:
@@ -305,12 +488,14 @@ def run(ctx):
         for e in ELEMS:
             cases[e] = cases[e] + gen_cases(ctx, e, traits, 4)
     bad = []
+    impl_out = {}
     for e in ELEMS:
         cs = cases[e] + (gcases if e == 'pod' else [])
         path = os.path.join(ctx.build, 'oracle-%s.cases' % e)
         open(path, 'w').write('\n'.join(cs) + '\n')
         rc, lines, err = ctx.run_lines([hs[e]], path)
         ctx.evaluations += len(cs)
+        impl_out[e] = lines[:len(cases[e])]
         for i, c in enumerate(cs):
             out = lines[i] if i < len(lines) else '<harness died: %s>' % err[-200:].strip()
             why = oracle_line(ctx, c, out)
@@ -320,6 +505,37 @@ def run(ctx):
             else:
                 if ':r:' in c or ':0:' in c:
                     ctx.nontrivial.add(c)
+    # calls that must be rejected without touching the array (oracle only: the huge values do not exist in the model's nat)
+    rcases = rej_cases(ctx, traits, scale)
+    rej_stats = {}
+    rbad = []
+    for e in ELEMS:
+        if not rcases[e]:
+            continue
+        path = os.path.join(ctx.build, 'rej-%s.cases' % e)
+        open(path, 'w').write('\n'.join(rcases[e]) + '\n')
+        rc, lines, err = ctx.run_lines([hs[e]], path)
+        ctx.evaluations += len(rcases[e])
+        for i, c in enumerate(rcases[e]):
+            out = lines[i] if i < len(lines) else '<harness died>'
+            why, key = rej_oracle(c, out)
+            how = out.split()[2] if len(out.split()) > 2 else 'failed'
+            rej_stats[how] = rej_stats.get(how, 0) + 1
+            if why:
+                rbad.append((c, out, why, key))
+            else:
+                ctx.nontrivial.add(c)
+    known_keys = {k['key'] for k in ctx.known_findings() if k['kind'] == 'known' and k['property'] == ctx.id}
+    ctx.stage('oracle-rejected', all(b[3] in known_keys for b in rbad), rbad[0][2] if rbad else '')
+    rbad.sort(key=lambda t: len(t[0]))
+    seen_keys = set()
+    for (c, out, why, key) in rbad:
+        if key in seen_keys and key is not None:
+            continue
+        seen_keys.add(key)
+        if len(seen_keys) > 3: break
+        ctx.violation(why, {'case': c, 'impl_output': out, 'cmd': 'echo "%s" | build/C05/harness_%s' % (c, c.split()[1])},
+                      found_input=True, key=key)
     ctx.stage('oracle', not bad, bad[0][2] if bad else '')
     bad.sort(key=lambda t: len(t[0]))
     for (c, out, why) in bad[:3]:
@@ -327,8 +543,7 @@ def run(ctx):
     allc = [c for e in ELEMS for c in cases[e]]
     for c in allc[::max(1, len(allc) // 6)][:6]:
         ctx.add_sample(c[:300])
-    ctx.coverage['input_distribution'] = {e: len(cases[e]) for e in ELEMS}
-    ctx.coverage['input_distribution']['grow'] = len(gcases)
+    ctx.coverage['input_distribution'] = measure(cases, impl_out, gcases, rcases, rej_stats)
     return ctx.finish(rule=RULE)
 
 
